@@ -94,6 +94,19 @@ func TestExh_C07(t *testing.T) {
 			nForms++
 		}
 	}
+	// every kind of caller context against the faults that end in the request timeout or in a
+	// closed connection, for every request kind
+	for _, q := range reqs {
+		for _, cx := range []string{"", "deadline", "values", "cancel", "values+deadline", "cancel+deadline"} {
+			for _, ft := range []Fault{{Kind: "hang"}, {Kind: "close", When: "during"}, {Kind: "cut", Dir: "p2r", K: 20},
+				{Kind: "garbage", Level: "ttrpc", StreamSel: "zero", Type: 2, Bytes: []byte{1, 2, 3}, DeclLen: 3}} {
+				c := mk(q.req, q.event, "", 0, false)
+				c.Ctx, c.FollowCtx, c.CtxDeadlineS = cx, cx, 30
+				c.Plugins[1].Fault = ft
+				run(c)
+			}
+		}
+	}
 	r.SetExtra("sweep_error_forms", len(forms))
 	r.SetExtra("sweep_cases", n)
 	r.SetExtra("sweep_offsets_small", small)
